@@ -64,7 +64,11 @@ def gen_cases(tier, seed):
         sched = r.choice(["os", "os", "lifo", "pct", "role"])
         # an ordinary user's copy: everything belongs to uid/gid 65534 and xcp runs under those ids (no privilege to fall back on)
         unpriv = sched == "os" and "--ownership" not in flags and r.random() < 0.25
-        yield {"unpriv": unpriv, "spec": spec, "pre": pre, "flags": flags, "driver": driver, "umask": r.choice([0o022, 0o077, 0, 0o027]), "overwritten": overwritten,
+        # a refresh: the same command once more after nothing but extended attributes (and, with --ownership, owners) of the sources
+        # have changed -- content, length, mode and modification time are what they were
+        rt = random.Random(seed * 613 + i)
+        refresh = overwritten and sched == "os" and not unpriv and rt.random() < 0.5
+        yield {"refresh": refresh, "unpriv": unpriv, "spec": spec, "pre": pre, "flags": flags, "driver": driver, "umask": r.choice([0o022, 0o077, 0, 0o027]), "overwritten": overwritten,
                "args": ["--driver", driver, "-w", str(r.choice([0, 1, 2, 4, 8])), "--block-size", "16KB"] + flags
                        + r.choice([[], [], ["--fsync"], ["--reflink", "never"], ["--backup", "numbered"], ["--no-progress"], ["-L"], ["--gitignore"]]) + ["-r", "src", "dst"],
                "sched": sched, "sseed": r.randrange(1 << 30), "fs": "tmpfs" if r.random() < 0.25 else "ext4"}
@@ -122,6 +126,30 @@ def run_case(case):
         if not run.exit0:
             res["counters"]["nonzero-exit"] = 1
             return res
+        if case.get("refresh"):
+            for e in case["spec"]:
+                if e["k"] != "f":
+                    continue
+                q = os.path.join(b(root), b(e["p"]))
+                for k, v in (e.get("xattrs") or {}).items():
+                    if k.startswith("user."):
+                        os.setxattr(q, b(k), b(v) + b"+later")
+                os.setxattr(q, b"user.added-later", b"new")
+                if "--ownership" in case["flags"] and "security.capability" not in (e.get("xattrs") or {}):
+                    os.chown(q, 4242, 2424)
+                    os.chmod(q, e["mode"])      # (chown cleared the set-ID bits)
+                os.utime(q, ns=(e.get("atime_ns", e["mtime_ns"]), e["mtime_ns"]))
+            pre = tree.snapshot(root, content=False)
+            t0 = time.time_ns()
+            run = core.run_plain(core.xcp_argv(case["args"]), root, umask=case["umask"])
+            t1 = time.time_ns()
+            if run.verdict != "exited":
+                res["inconc"].append("run-" + run.verdict)
+                return res
+            if not run.exit0:
+                res["counters"]["nonzero-exit"] = 1
+                return res
+            res["counters"]["refresh-runs-after-attribute-changes"] = 1
         post = tree.snapshot(root, content=False)
         mapping, _ = model.map_sources(pre, root, ["src"], "dst")
         files = [m for m in mapping if m["rec"]["k"] == "f"]
@@ -153,8 +181,9 @@ def run_case(case):
                 allowed = {0o666 & ~case["umask"]}
                 if old:
                     allowed.add(old["mode"])
-                    if owner or case.get("unpriv"):
-                        # the kernel clears set-ID bits of the previous mode when the owner is changed, or when an unprivileged process writes to the file
+                    if (owner and (old["uid"], old["gid"]) != (s["uid"], s["gid"])) or case.get("unpriv"):
+                        # the kernel clears set-ID bits of the previous mode when the owner is changed, or when an unprivileged process writes to the
+                        # file (a destination that already belongs to the source's owner keeps them: D55)
                         allowed |= {old["mode"] & ~0o6000, old["mode"] & ~0o4000, old["mode"] & ~0o2000}
                 if d["mode"] not in allowed:
                     res["viol"].append({"sig": "%s:noperms-mode" % sig0, "what": "--no-perms but destination mode is %04o (allowed: %s); %s"
